@@ -240,6 +240,14 @@ func profLockstep(en *Env) {
 			id, _ := vs.New(5 + en.R.Intn(40))
 			sc = append(sc, scriptStep{"Put", k, id, 0})
 		}
+		for a := 0; a < 2; a++ { // an iterator kept open across an overwrite and a delete, both directions
+			id, _ := vs.New(5 + en.R.Intn(40))
+			sc = append(sc, scriptStep{"IterMut", 1 + en.R.Intn(nkeys), id, a})
+			for k := 1; k <= nkeys; k++ {
+				id, _ := vs.New(5 + en.R.Intn(40))
+				sc = append(sc, scriptStep{"Put", k, id, 0})
+			}
+		}
 		for _, a := range []int{0, 1, 4, 5, 8 + 16*en.R.Intn(8), 9 + 16*en.R.Intn(8), 12 + 16*en.R.Intn(8), 13 + 16*en.R.Intn(8)} {
 			sc = append(sc, scriptStep{"Iterate", 0, 0, a})
 		}
